@@ -142,7 +142,9 @@ Plan genBuild(const std::string& prop, int tier, uint64_t batchSeed, uint64_t id
         c = kTyped[r.below(7)];
     // re-use policy of this run
     const int policy = static_cast<int>(r.below(5));  // 0 fresh each time, 1 long then short, 2 short then long, 3 same length, 4 random
-    const size_t nOps = 2 + r.below(tier ? 30 : 12);
+    // (one run in fifty: hundreds of setData calls on the same objects)
+    const bool manySets = r.chance(1, 50);
+    const size_t nOps = manySets ? 270 + r.below(850) : 2 + r.below(tier ? 30 : 12);
     std::vector<int64_t> prevN(nObj, -1);
     for (size_t o = 0; o < nOps; ++o)
     {
@@ -150,9 +152,9 @@ Plan genBuild(const std::string& prop, int tier, uint64_t batchSeed, uint64_t id
         const int c = cls[oi];
         Item& op = g.addOp(OP_BUILD, -1, 0);
         op.set("cls", c).set("obj", static_cast<int64_t>(oi)).set("id", g.msgId());
-        if (policy == 0 || r.chance(1, 10))
+        if (!manySets && (policy == 0 || r.chance(1, 10)))
             op.set("fresh", 1);
-        if (r.chance(1, 8))
+        if (!manySets && r.chance(1, 8))
         {
             // the object is (re)born from wire bytes: lengths / DLC that need not match, possibly shorter than the header
             op.set("fromwire", 1).set("wid", g.msgId()).set("wlen", static_cast<int64_t>(minLenOf(c)) + r.range(0, 40));
@@ -334,7 +336,8 @@ Plan genStatus(const std::string& prop, int tier, uint64_t batchSeed, uint64_t i
     g.addNode(tecmpNode, 3, 0, 0);
     const bool forceReAdd = r.chance(1, 2);
     const bool enFault = r.chance(1, 2);
-    const size_t nOps = (many ? 30 : 4) + r.below(tier ? 80 : 40);
+    // (one run in fifty: hundreds of updates and operator actions on one tracker)
+    const size_t nOps = (!many && r.chance(1, 50)) ? 270 + r.below(850) : (many ? 30 : 4) + r.below(tier ? 80 : 40);
     int lastRemovedDev = -1;
     std::map<int64_t, Item> lastStatus;
     if (many)
